@@ -48,7 +48,10 @@ ID = 'C20'
 RULE = ('exhaustive: every data-URL script of length <= 3 (quick; <= 4 thorough) over {good, corrupt, HTTP error} '
         'x constant checksum-URL behaviour {correct, wrong, missing} x prior file {absent, valid, corrupt} = 351 '
         '(1080) worlds, each under several server configurations (body sizes around the 1024-byte chunk and '
-        '2**20-byte MD5 block, checksum-file formats, 404/500/empty/dropped checksum answers, HEAD failures), and '
+        '2**20-byte MD5 block, checksum-file formats incl. md5sum text and binary mode, 404/500/empty/dropped checksum '
+        'answers, HEAD failures, the local file saved under the URL\'s basename / another name / no extension / another '
+        'case, output_path as absolute str / pathlib.Path / relative to the cwd, 200 bodies transferred with '
+        'Content-Length / without / Content-Encoding gzip or deflate / HTTP/1.1 chunked / gzip + chunked), and '
         'every wrong-checksum world under each spelling of "wrong" (MD5 of other bytes in lower / upper case; the '
         'right digest truncated / one character too long / with a non-hex character); plus '
         'varying checksum scripts, two distinct corrupt bodies, wrong checksums that match a corrupt body, and a '
@@ -602,6 +605,9 @@ def shrink(case):
             yield mk(sums=i['sums'][:k] + ['bad'] + i['sums'][k + 1:])
     if i['rest'] in ('c1', 'c2', 'p'):
         yield mk(rest='bad')
+    for xa, xb in (('gzip-all', 'gzip'), ('gzip-chunked', 'gzip'), ('gzip-chunked', 'chunked')):
+        if i['cfg'].get('xfer') == xa:
+            yield mk(cfg=dict(i['cfg'], xfer=xb))
     for ax, dv in DEFAULT_CFG.items():
         if i['cfg'].get(ax, dv) != dv:
             c = dict(i['cfg'])
